@@ -87,7 +87,7 @@ func vSameMembership(a, b pb.Membership, tag string) {
 // prefix j <= k, like a lagging follower) recovers from that snapshot and is
 // then handed the whole batch.  B must end in exactly A's state, entries <= k
 // must not reach B's user state machine again.
-//vcheck: props=C05,C11 reach=fresh-follower,lagging-follower,restart,done workers=16
+//vcheck: props=C05,C11,C02 reach=fresh-follower,lagging-follower,restart,done workers=16
 func VHarness_C08_Twin() {
 	n := 3 + vTier()
 	vInitResults(n)
